@@ -252,6 +252,7 @@ package hashgraph
 //@ ghost field Store psetOK bool
 //   bodies  index -> the block body as it was when the block was last stored (what a persistent store keeps)
 //@ ghost field Store bodies gmap[int, BlockBody]
+//@ ghost field Store lastBlock int
 
 //@ iface func (s Store) GetBlock(index int) (*Block, error)
 //@   modifies nothing
@@ -260,7 +261,8 @@ package hashgraph
 
 //@ iface func (s Store) SetBlock(block *Block) error
 //@   requires block != nil
-//@   modifies G_blocks(s), G_bodies(s), G_fault(s)
+//@   modifies G_blocks(s), G_bodies(s), G_fault(s), G_lastBlock(s)
+//@   ensures[last]  (ret0 == nil ==> G_lastBlock(s) == __ite(block.Body.Index > old(G_lastBlock(s)), block.Body.Index, old(G_lastBlock(s)))) && (ret0 != nil ==> G_lastBlock(s) == old(G_lastBlock(s)))
 //@   ensures[set]   ret0 == nil ==> __eq(G_blocks(s), __upd(old(G_blocks(s)), block.Body.Index, block)) && __eq(G_bodies(s), __upd(old(G_bodies(s)), block.Body.Index, block.Body))
 //@   ensures[fail]  ret0 != nil ==> __eq(G_blocks(s), old(G_blocks(s))) && __eq(G_bodies(s), old(G_bodies(s))) && G_fault(s)
 //@   ensures[nofix] old(G_fault(s)) ==> G_fault(s)
@@ -295,13 +297,13 @@ package hashgraph
 
 //@ func (h *Hashgraph) ProcessSigPool() error
 //@   requires h != nil && h.PendingSignatures != nil && h.PendingSignatures.items != nil && StoredBlocksSeparate(h.Store)
-//@   modifies h.AnchorBlock, anyptr int, anymap map[string]string, h.PendingSignatures.items[*], G_blocks(h.Store), G_bodies(h.Store), G_fault(h.Store)
+//@   modifies h.AnchorBlock, anyptr int, anymap map[string]string, h.PendingSignatures.items[*], G_blocks(h.Store), G_bodies(h.Store), G_fault(h.Store), G_lastBlock(h.Store)
 //@   ensures[recorded-only-if-valid] forall i int, v string :: __in(i, G_blocks(h.Store)) && G_blocks(h.Store)[i] != nil && __in(v, G_blocks(h.Store)[i].Signatures) && (!old(__in(v, G_blocks(h.Store)[i].Signatures)) || G_blocks(h.Store)[i].Signatures[v] != old(G_blocks(h.Store)[i].Signatures[v])) ==> ValidSigEntry(G_blocks(h.Store)[i], G_pset(h.Store)[G_blocks(h.Store)[i].Body.RoundReceived], v)
 //@   ensures[kept]      forall i int, v string :: __in(i, G_blocks(h.Store)) && G_blocks(h.Store)[i] != nil && old(__in(v, G_blocks(h.Store)[i].Signatures)) ==> __in(v, G_blocks(h.Store)[i].Signatures)
 //@   ensures[bodies]    __eq(G_blocks(h.Store), old(G_blocks(h.Store))) && (forall i int :: __in(i, G_blocks(h.Store)) && G_blocks(h.Store)[i] != nil ==> __eq(G_blocks(h.Store)[i].Body, old(G_blocks(h.Store)[i].Body)) && __eq(G_blocks(h.Store)[i].Signatures, old(G_blocks(h.Store)[i].Signatures)))
 //@   ensures[total]     !G_fault(h.Store) ==> ret0 == nil
 //@   ensures[anchor]    old(h.AnchorBlock) != nil ==> h.AnchorBlock != nil && *h.AnchorBlock >= old(*h.AnchorBlock)
-//@   loop 1 modifies h.AnchorBlock, anyptr int, anymap map[string]string, h.PendingSignatures.items[*], G_blocks(h.Store), G_bodies(h.Store), G_fault(h.Store)
+//@   loop 1 modifies h.AnchorBlock, anyptr int, anymap map[string]string, h.PendingSignatures.items[*], G_blocks(h.Store), G_bodies(h.Store), G_fault(h.Store), G_lastBlock(h.Store)
 //@   loop 1 invariant[valid]  forall i int, v string :: __in(i, G_blocks(h.Store)) && G_blocks(h.Store)[i] != nil && __in(v, G_blocks(h.Store)[i].Signatures) && (!old(__in(v, G_blocks(h.Store)[i].Signatures)) || G_blocks(h.Store)[i].Signatures[v] != old(G_blocks(h.Store)[i].Signatures[v])) ==> ValidSigEntry(G_blocks(h.Store)[i], G_pset(h.Store)[G_blocks(h.Store)[i].Body.RoundReceived], v)
 //@   loop 1 invariant[kept]   forall i int, v string :: __in(i, G_blocks(h.Store)) && G_blocks(h.Store)[i] != nil && old(__in(v, G_blocks(h.Store)[i].Signatures)) ==> __in(v, G_blocks(h.Store)[i].Signatures)
 //@   loop 1 invariant[bodies] __eq(G_blocks(h.Store), old(G_blocks(h.Store))) && (forall i int :: __in(i, G_blocks(h.Store)) && G_blocks(h.Store)[i] != nil ==> __eq(G_blocks(h.Store)[i].Body, old(G_blocks(h.Store)[i].Body)) && __eq(G_blocks(h.Store)[i].Signatures, old(G_blocks(h.Store)[i].Signatures)))
@@ -362,9 +364,12 @@ package hashgraph
 //@   ensures[hit] ret1 == nil ==> ret0 != nil && __in(roundIndex, G_rounds(s)) && ret0 == G_rounds(s)[roundIndex] && ret0.CreatedEvents != nil
 //@   ensures[err] ret1 != nil ==> ret0 == nil
 
+// FrameWF: no nil peer, frame event or core event (what the consumers of a frame dereference).
+//@ ghost func FrameWF(f *Frame) bool { return len(f.Peers) < 2147483648 && (forall i int :: 0 <= i && i < len(f.Peers) ==> f.Peers[i] != nil) && (forall k int :: 0 <= k && k < len(f.Events) ==> f.Events[k] != nil && f.Events[k].Core != nil) }
+
 //@ iface func (s Store) GetFrame(roundReceived int) (*Frame, error)
 //@   modifies nothing
-//@   ensures[hit]  ret1 == nil ==> ret0 != nil && __in(roundReceived, G_frames(s)) && ret0 == G_frames(s)[roundReceived]
+//@   ensures[hit]  ret1 == nil ==> ret0 != nil && __in(roundReceived, G_frames(s)) && ret0 == G_frames(s)[roundReceived] && FrameWF(ret0)
 //@   ensures[miss] common.IsStore(ret1, common.KeyNotFound) ==> !__in(roundReceived, G_frames(s))
 //@   ensures[err]  ret1 != nil ==> ret0 == nil
 
@@ -400,6 +405,7 @@ package hashgraph
 //@   requires h != nil
 //@   modifies anyghost common.m, G_frames(h.Store), G_fault(h.Store), G_miss(h.Store)
 //@   ensures[stored-or-computed] ret1 == nil ==> ret0 != nil && (__called("SetFrame") || ret0 == old(G_frames(h.Store))[roundReceived])
+//@   ensures[wf]        ret1 == nil ==> FrameWF(ret0)
 //@   ensures[timestamp] ret1 == nil && __called("SetFrame") ==> common.IsMedianOf(timestamps, ret0.Timestamp)
 //@   ensures[famous]    ret1 == nil && __called("SetFrame") ==> (exists fw []string :: __enum(fw, round.CreatedEvents, func(x string) bool { return FW(round, x) }) && len(timestamps) == len(fw) && (forall k int :: 0 <= k && k < len(fw) ==> __in(fw[k], G_events(h.Store)) && timestamps[k] == G_events(h.Store)[fw[k]].Body.Timestamp))
 //@   ensures[round]     ret1 == nil && __called("SetFrame") ==> round == G_rounds(h.Store)[roundReceived] && ret0.Round == roundReceived
@@ -505,3 +511,67 @@ package hashgraph
 //@   ensures[at]      ret0 == nil ==> G_psetOK(s) && G_pset(s)[round] == peers
 //@   ensures[earlier] forall r int :: r < round ==> G_pset(s)[r] == old(G_pset(s))[r]
 //@   ensures[refuse]  ret0 != nil ==> __eq(G_pset(s), old(G_pset(s))) && G_psetOK(s) == old(G_psetOK(s))
+
+// ------------------------------------------------------------------------------------------------
+// Pending rounds queue and block production (C02)
+
+// wf: sortedItems is strictly ascending by Index and lists exactly the values of items, each under its own index.
+//@ ghost func (c *PendingRoundsCache) wf() bool { return c.items != nil && len(c.sortedItems) < 4611686018427387904 && (forall i int, j int :: 0 <= i && i < j && j < len(c.sortedItems) ==> c.sortedItems[i].Index < c.sortedItems[j].Index) && (forall k int :: 0 <= k && k < len(c.sortedItems) ==> c.sortedItems[k] != nil && __allocated(c.sortedItems[k]) && __in(c.sortedItems[k].Index, c.items) && c.items[c.sortedItems[k].Index] == c.sortedItems[k]) && (forall r int :: __in(r, c.items) ==> c.items[r] != nil && __allocated(c.items[r]) && c.items[r].Index == r && (exists k int :: 0 <= k && k < len(c.sortedItems) && c.sortedItems[k] == c.items[r])) }
+
+//@ func (c *PendingRoundsCache) Queued(round int) bool
+//@   requires c != nil && c.items != nil
+//@   modifies nothing
+//@   ensures[def] ret0 == __in(round, c.items)
+
+//@ func (c *PendingRoundsCache) Set(pendingRound *PendingRound)
+//@   requires c != nil && c.wf() && pendingRound != nil && !__in(pendingRound.Index, c.items)
+//@   modifies c.items[*], c.sortedItems
+//@   ensures[map]   forall r int :: __in(r, c.items) == (old(__in(r, c.items)) || r == pendingRound.Index) && c.items[r] == __ite(r == pendingRound.Index, pendingRound, old(c.items[r]))
+//@   ensures[len]   len(c.sortedItems) == old(len(c.sortedItems)) + 1
+//@   ensures[asc]   forall i int, j int :: 0 <= i && i < j && j < len(c.sortedItems) ==> c.sortedItems[i].Index < c.sortedItems[j].Index
+//@   ensures[in]    forall k int :: 0 <= k && k < len(c.sortedItems) ==> c.sortedItems[k] != nil && __in(c.sortedItems[k].Index, c.items) && c.items[c.sortedItems[k].Index] == c.sortedItems[k]
+//@   ensures[onto]  forall r int :: __in(r, c.items) ==> (exists k int :: 0 <= k && k < len(c.sortedItems) && c.sortedItems[k] == c.items[r])
+
+//@ func (c *PendingRoundsCache) Update(decidedRounds []int)
+//@   requires c != nil && c.wf()
+//@   modifies any PendingRound.Decided
+//@   ensures[latch]  forall p *PendingRound :: old(p.Decided) ==> p.Decided
+//@   ensures[marked] forall k int :: 0 <= k && k < len(decidedRounds) && __in(decidedRounds[k], c.items) ==> c.items[decidedRounds[k]].Decided
+//@   ensures[only]   forall p *PendingRound :: p.Decided && !old(p.Decided) ==> (exists k int :: 0 <= k && k < len(decidedRounds) && __in(decidedRounds[k], c.items) && c.items[decidedRounds[k]] == p)
+//@   loop 1 invariant[latch]  forall p *PendingRound :: old(p.Decided) ==> p.Decided
+//@   loop 1 invariant[marked] forall k int :: 0 <= k && k < __idx() && __in(decidedRounds[k], c.items) ==> c.items[decidedRounds[k]].Decided
+//@   loop 1 invariant[only]   forall p *PendingRound :: p.Decided && !old(p.Decided) ==> (exists k int :: 0 <= k && k < __idx() && __in(decidedRounds[k], c.items) && c.items[decidedRounds[k]] == p)
+
+//@ func (c *PendingRoundsCache) Clean(processedRounds []int)
+//@   requires c != nil && c.wf()
+//@   modifies c.items[*], c.sortedItems
+//@   ensures[removed] forall k int :: 0 <= k && k < len(processedRounds) ==> !__in(processedRounds[k], c.items)
+//@   ensures[kept]    forall r int :: __in(r, c.items) ==> old(__in(r, c.items)) && c.items[r] == old(c.items[r])
+//@   ensures[others]  forall r int :: old(__in(r, c.items)) && !__in(r, c.items) ==> (exists k int :: 0 <= k && k < len(processedRounds) && processedRounds[k] == r)
+//@   ensures[asc]     forall i int, j int :: 0 <= i && i < j && j < len(c.sortedItems) ==> c.sortedItems[i].Index <= c.sortedItems[j].Index
+//@   ensures[in]      forall k int :: 0 <= k && k < len(c.sortedItems) ==> c.sortedItems[k] != nil && __in(c.sortedItems[k].Index, c.items) && c.items[c.sortedItems[k].Index] == c.sortedItems[k]
+//@   loop 1 modifies c.items[*]
+//@   loop 1 invariant[removed] forall k int :: 0 <= k && k < __idx() ==> !__in(processedRounds[k], c.items)
+//@   loop 1 invariant[kept]    forall r int :: __in(r, c.items) ==> old(__in(r, c.items)) && c.items[r] == old(c.items[r])
+//@   loop 1 invariant[others]  forall r int :: old(__in(r, c.items)) && !__in(r, c.items) ==> (exists k int :: 0 <= k && k < __idx() && processedRounds[k] == r)
+//@   loop 2 invariant[vals]    !(newSortedItems == nil) && (forall k int :: 0 <= k && k < len(newSortedItems) ==> newSortedItems[k] != nil && __in(newSortedItems[k].Index, c.items) && c.items[newSortedItems[k].Index] == newSortedItems[k])
+
+//@ iface func (s Store) LastBlockIndex() int
+//@   modifies nothing
+//@   ensures[def] ret0 == G_lastBlock(s)
+
+//@ iface func (s Store) AddConsensusEvent(event *Event) error
+//@   requires event != nil
+//@   modifies G_fault(s)
+
+//@ func (h *Hashgraph) ProcessDecidedRounds() error
+//@   requires h != nil && h.PendingRounds != nil && h.PendingRounds.wf()
+//@   callback commitCallback modifies any Block.Body, anymap map[string]string, G_blocks(h.Store), G_bodies(h.Store), G_lastBlock(h.Store), G_pset(h.Store), G_psetOK(h.Store), G_rep(h.Store), G_fault(h.Store), h.AnchorBlock, anyptr int
+//@   call NewBlockFromFrame assert[index]   __arg(0) == G_lastBlock(h.Store) + 1
+//@   call GetFrame          assert[decided] r.Decided && __arg(0) == r.Index
+//@   ensures[processed-prefix] len(processedRounds) <= old(len(h.PendingRounds.sortedItems)) && (forall k int :: 0 <= k && k < len(processedRounds) ==> processedRounds[k] == old(h.PendingRounds.sortedItems)[k].Index && old(h.PendingRounds.sortedItems)[k].Decided)
+//@   ensures[stop-at-undecided] ret0 == nil && len(processedRounds) < old(len(h.PendingRounds.sortedItems)) ==> !old(h.PendingRounds.sortedItems)[len(processedRounds)].Decided
+//@   ensures[cleaned]          forall k int :: 0 <= k && k < len(processedRounds) ==> !__in(processedRounds[k], h.PendingRounds.items)
+//@   loop 1 invariant[prefix]  !(processedRounds == nil) && len(processedRounds) == __idx() && h.PendingRounds == old(h.PendingRounds) && __eq(__ranged(OrderedPendingRounds(nil)), old(h.PendingRounds.sortedItems)) && (forall k int :: 0 <= k && k < __idx() ==> processedRounds[k] == old(h.PendingRounds.sortedItems)[k].Index && old(h.PendingRounds.sortedItems)[k].Decided)
+//@   loop 1 invariant[flags]   (forall p *PendingRound :: p.Decided == old(p.Decided) && p.Index == old(p.Index)) && h.PendingRounds.wf()
+//@   loop 2 invariant[keep]    true
